@@ -24,7 +24,7 @@ CASE_TIMEOUT = 3600  # one case is a whole schedule exploration
 LEVEL = "model_checking"
 DETERMINISM_REPLAY = False  # engine checks prefix replay + re-runs first/last schedule
 RULE = (
-    "harness = 2-3 real threads, each 1-2 calls from {write(untyped), write(traceback serializer), "
+    "harness = 2-3 real threads, each 1-3 calls (incl. a thread that carries on after its validate() raised) from {write(untyped), write(traceback serializer), "
     "write(typed serializer), validate, serialize, flush_tracebacks, reset} on one MemoryLogger, or "
     "1-2 messages each into one FileDestination; scheduling points = every source line of "
     "eliot/_output.py executed by a thread + lock operations; all schedules with <= p preemptions; "
